@@ -74,6 +74,26 @@ int main(int argc, char** argv)
 		  for (size_t cut = 0; cut <= two.size(); cut += (cut < 400 ? 1 : 41)) { int fd[2]; if (socketpair(AF_UNIX, SOCK_STREAM, 0, fd) != 0) return 2;
 			if (cut && write(fd[0], two.data(), cut) != (ssize_t)cut) return 2; close(fd[0]);
 			Socket sock(fd[1]); g_cut = (int)cut; alarm(5); { HttpRequest a(sock); } { HttpRequest b(sock); } alarm(0); g_cut = -1; } }
+		// Socket::read(buf, n) on a blocking socket returns n once n bytes have come, however they were delivered
+		for (int first = 1; first < 20; first += 6) { int fd[2]; if (socketpair(AF_UNIX, SOCK_STREAM, 0, fd) != 0) return 2;
+			std::thread wr([&] { const char* d = "0123456789abcdefghij"; if (write(fd[0], d, first) != first) return; usleep(150000); if (write(fd[0], d + first, 20 - first) != 20 - first) return; });
+			Socket sock(fd[1]); char buf[32] = { 0 }; alarm(10); int n = sock.read(buf, 20); alarm(0); wr.join(); close(fd[0]);
+			if (n != 20 || memcmp(buf, "0123456789abcdefghij", 20) != 0) { printf("REPRODUCED Socket::read(buf, 20) returned %d ('%.20s') when the 20 bytes arrived as %d + %d\n", n, buf, first, 20 - first); return 1; } }
+		// sending: what HttpMessage::write puts on the connection is the header block and then exactly the body (sizes around the 128000-byte write block), chunked or not
+		for (int n : { 5, 127999, 128000, 128001, 255990, 256000 }) for (int chunked = 0; chunked < 2; chunked++) { int fd[2]; if (socketpair(AF_UNIX, SOCK_STREAM, 0, fd) != 0) return 2;
+			std::string got; std::thread rd([&] { char b[65536]; ssize_t k; while ((k = read(fd[0], b, sizeof(b))) > 0) got.append(b, (size_t)k); });
+			std::string body; for (int i = 0; i < n; i++) body.push_back(char('a' + (i * 7 + (i >> 9)) % 26));
+			char* exact = (char*)malloc(n ? n : 1); memcpy(exact, body.data(), n);      // exact-size heap copy: reading past the body is an ASan report
+			{ Socket sock(fd[1]); HttpRequest msg; msg.use(sock); if (!chunked) msg.setHeader("Content-Length", String(n));    /* (a message without Content-Length is sent chunked) */
+			  msg.write(exact, n); sock.close(); }
+			free(exact); shutdown(fd[1], SHUT_RDWR); rd.join(); close(fd[0]);
+			size_t h = got.find("\r\n\r\n"); if (h == std::string::npos) { printf("REPRODUCED no header block on the wire for a %d-byte body\n", n); return 1; }
+			std::string payload = got.substr(h + 4), plain;
+			if (chunked) { size_t p = 0; bool ok = true; while (p < payload.size()) { size_t e = payload.find("\r\n", p); if (e == std::string::npos) { ok = false; break; } size_t len = strtoul(payload.substr(p, e - p).c_str(), 0, 16); if (e + 2 + len + 2 > payload.size()) { ok = false; break; }
+					plain += payload.substr(e + 2, len); if (payload.compare(e + 2 + len, 2, "\r\n") != 0) { ok = false; break; } p = e + 2 + len + 2; }
+				if (!ok) { printf("REPRODUCED chunk framing broken on the wire for a %d-byte body\n", n); return 1; } }
+			else plain = payload;
+			if (plain != body) { printf("REPRODUCED HttpMessage::write of a %d-byte body (%s) put %d body bytes on the wire%s\n", n, chunked ? "chunked" : "Content-Length", (int)plain.size(), plain.size() > body.size() ? " (more than declared)" : ""); return 1; } }
 		// (no HttpServer here: under ASan every served connection ends in the handler thread's self-deletion use-after-free noted in DESIGN 7 / C14, which would mask everything else)
 		printf("OK\n"); return 0;
 	}
